@@ -104,19 +104,20 @@ def mc(families, impl, mode, invariants, properties, liveness=False, timeout=300
 
 # ---------------------------------------------------------------------------
 # per property: invariants/properties of Sched.tla, families, negative controls
-DAG_Q = ["pair", "chain3p", "fanin1", "diamondp", "pullchain2"]
+DAG_Q = ["pair", "chain3p", "fanin1", "diamondp", "pullchain2", "pulltwice"]
 DAG_T = DAG_Q + ["pairL", "chain3t", "fanin2", "fanout", "diamondt", "pair3", "pairXL"]
-CYC_Q = ["ring2", "pullring", "pullringtail", "ringbreak"]
+CYC_Q = ["ring2", "pullring", "pullringtail", "ringbreak", "ring2tail"]
 CYC_T = CYC_Q + ["ring3", "ring4"]
 
 PLAN = {
     "C01": dict(inv=["NoRefusedPull"], prop=["AvailableAtUpdate"], live=False,
-                quick=DAG_Q + ["pullring", "ringbreak"], thorough=DAG_T + CYC_T,
-                neg=[(["pair"], "countabove", ["NoRefusedPull", "AvailableAtUpdate"])],
+                quick=DAG_Q + ["pullring", "ringbreak", "ring2tail"], thorough=DAG_T + CYC_T,
+                neg=[(["pair"], "countabove", ["NoRefusedPull", "AvailableAtUpdate"]),
+                     (["pulltwice"], "depmin", ["NoRefusedPull", "AvailableAtUpdate"])],
                 known_mc=[(["pullfanout"], "intended", ["NoRefusedPull"], "C01-pull-fanout-eviction")],
                 extra_trace=["pullfanout"]),
     "C02": dict(inv=[], prop=["OnlyAllowedChoices"], live=False,
-                quick=DAG_Q + ["ring2"], thorough=DAG_T + CYC_T,
+                quick=DAG_Q + ["ring2", "fanin2"], thorough=DAG_T + CYC_T,
                 neg=[(["pairL"], "nocompose", ["OnlyAllowedChoices"])], known_mc=[], extra_trace=[]),
     "C03": dict(inv=["EndReached"], prop=["Monotone", "NoLateUpdate", "Terminates"], live=True,
                 quick=["pair", "chain3p", "fanin1", "ring2"], thorough=DAG_T + CYC_T,
